@@ -122,7 +122,7 @@ def run_exe(exe, lines, args=(), env=None, timeout=3600):
     e = dict(os.environ)
     if env:
         e.update(env)
-    r = subprocess.run([exe] + list(args), input=data, capture_output=True, text=True, env=e, timeout=timeout)
+    r = subprocess.run([exe] + list(args), input=data, capture_output=True, text=True, errors='replace', env=e, timeout=timeout)
     return r
 
 
